@@ -195,6 +195,69 @@ def dump (s : Store) : Json :=
     ("nodes", Json.arr (s.nodes.map fun n => Json.arr #[Json.num (JsonNumber.fromNat n.iid), attrsToJson n.attrs]).toArray),
     ("edges", edgesToJson (iterFrom s.edges [] (s.nodes.map (·.iid))))]
 
+def graphOfJson (ns es : Json) : Option (Graph Nat) := do
+  let st ← parseLoad (Json.num 0) ns es
+  pure { nodes := st.nodes.map fun n => (n.iid, n.attrs), edges := st.edges }
+
+def parseDLoad (gs cs : Json) : Option DStore := do
+  let graphs ← match gs with
+    | .arr xs => xs.toList.mapM fun x =>
+        match x with
+        | .arr #[g, ns, es] => do
+          let g' ← valOfJson g
+          let G ← graphOfJson ns es
+          pure (g', G)
+        | _ => none
+    | _ => none
+  let counters ← match cs with
+    | .arr xs => xs.toList.mapM fun x =>
+        match x with
+        | .arr #[g, n] => do
+          let g' ← valOfJson g
+          let n' ← n.getNat?.toOption
+          pure (g', n')
+        | _ => none
+    | _ => none
+  pure { graphs := graphs, counters := counters }
+
+def ddump (s : DStore) : Json :=
+  Json.mkObj [
+    ("graphs", Json.arr (s.graphs.map fun p => Json.arr #[valToJson p.1,
+        Json.arr (p.2.nodes.map fun n => Json.arr #[Json.num (JsonNumber.fromNat n.1), attrsToJson n.2]).toArray,
+        edgesToJson p.2.edgesIter]).toArray),
+    ("counters", Json.arr (s.counters.map fun p => Json.arr #[valToJson p.1, Json.num (JsonNumber.fromNat p.2)]).toArray)]
+
+def dstep (s : DStore) (j : Json) : Option (DStore × Json) :=
+  match j with
+  | .arr #[.str "dload", gs, cs] =>
+    match parseDLoad gs cs with
+    | some s' => some (s', ok Json.null)
+    | none => some (s, err "bad-args")
+  | .arr #[.str "ddump"] => some (s, ok (ddump s))
+  | .arr #[.str "dserialize", g, .str f] =>
+    match valOfJson g with
+    | none => some (s, err "bad-args")
+    | some g' =>
+      match dSerialize s g' (if f == "json" then .json else .graphml) with
+      | (.ok d, s') => some (s', ok (docToJson d))
+      | (.error e, s') => some (s', err e)
+  | .arr #[.str "dimport", .str entry, d, g] =>
+    match parseDoc d with
+    | none => some (s, err "bad-args")
+    | some d' =>
+      let r :=
+        if entry == "string" || entry == "file" then
+          match valOfJson g with
+          | some g' => some (dImportString s d' g')
+          | none => none
+        else if entry == "string_direct" || entry == "file_direct" then some (dImportDirect s d')
+        else none
+      match r with
+      | none => some (s, err "bad-args")
+      | some (.ok g', s') => some (s', ok (valToJson g'))
+      | some (.error e, s') => some (s', err e)
+  | _ => none
+
 def step (s : Store) (j : Json) : Store × Json :=
   match j with
   | .arr #[.str "reset"] => (Store.empty, ok Json.null)
@@ -211,6 +274,13 @@ def step (s : Store) (j : Json) : Store × Json :=
       | .ok none => (s, ok Json.null)
       | .ok (some d) => (s, ok (docToJson d))
       | .error e => (s, err e)
+  | .arr #[.str "validate", g, names, oks] =>
+    match valOfJson g, getStrs names, getStrs oks with
+    | some g', some ns, some os =>
+      match validate ns (fun t => os.contains t) s g' with
+      | .ok _ => (s, ok Json.null)
+      | .error e => (s, err e)
+    | _, _, _ => (s, err "bad-args")
   | .arr #[.str "graph_id", d] =>
     match parseDoc d with
     | none => (s, err "bad-args")
@@ -237,4 +307,8 @@ def step (s : Store) (j : Json) : Store × Json :=
 
 end FimVerif.C01Driver
 
-def main : IO Unit := runState FimVerif.GraphML.Store.empty FimVerif.C01Driver.step
+def main : IO Unit := runState (FimVerif.GraphML.Store.empty, FimVerif.GraphML.DStore.empty)
+  (fun st j =>
+    match FimVerif.C01Driver.dstep st.2 j with
+    | some (d', r) => ((st.1, d'), r)
+    | none => let (s', r) := FimVerif.C01Driver.step st.1 j; ((s', st.2), r))
